@@ -122,6 +122,10 @@ e("when1", S_I, lambda p, t: p.when(t.a > 1).then(t.b).otherwise(0))
 e("when_noelse", S_I, lambda p, t: p.when(t.a > 1).then(t.b))
 e("when2", S_I, lambda p, t: p.when(t.a > 1).then(t.b).when(t.p).then(5).otherwise(None))
 e("when_nullcond", S_I, lambda p, t: p.when(t.p).then(1).when(t.q).then(2).otherwise(3))
+e("when_else_float_lit", S_I, lambda p, t: p.when(t.p).then(t.a).otherwise(0.5))
+e("when_lits_int_float", S_I, lambda p, t: p.when(t.a > 0).then(1).when(t.b > 0).then(2).otherwise(2.5))
+e("when_none_else_lit", S_I, lambda p, t: p.when(t.p).then(None).otherwise(7))
+e("when_float_else_int_lit", S_F, lambda p, t: p.when(t.f > 0).then(t.f).otherwise(1))
 e("when_overlap", S_I, lambda p, t: p.when(t.a >= 0).then(1).when(t.a >= 1).then(2).otherwise(3))
 e("when_bool_val", S_I, lambda p, t: p.when(t.a > t.b).then(t.p).otherwise(t.q))
 e("when_nested_ops", S_I, lambda p, t: p.when((t.a // t.b) > 0).then(t.a % t.b).otherwise(-t.a), NL)
